@@ -54,7 +54,7 @@ theorem runG_length (ext : Ext) : ∀ (ops : List Op) (g : G), (runG ext g ops).
 
 /-! ### after a failure -/
 
-theorem serializeWithG_none (ext : Ext) : ∀ (x : SVal), ∃ e, serializeWithG ext none x = (.error e, none)
+theorem serializeWithG_none (ext : Ext) : ∀ (x : SVal), ∃ msg, serializeWithG ext none x = (fail msg, none)
   | .newtypeStruct _ v => by simpa [serializeWithG] using serializeWithG_none ext v
   | .newtypeVariant _ _ _ v => by simpa [serializeWithG] using serializeWithG_none ext v
   | .seq _ => ⟨_, rfl⟩
@@ -78,20 +78,20 @@ theorem serializeWithG_none (ext : Ext) : ∀ (x : SVal), ∃ e, serializeWithG 
   | .unitVariant _ _ _ => ⟨_, rfl⟩
   | .structVariant _ _ _ _ => ⟨_, rfl⟩
 
-/-- on a poisoned builder every operation fails and leaves it poisoned -/
-theorem stepG_none (ext : Ext) : ∀ (op : Op), ∃ e, stepG ext none op = (.error e, none)
+/-- on a poisoned builder every operation fails — with an error, not a panic — and leaves it poisoned -/
+theorem stepG_none (ext : Ext) : ∀ (op : Op), ∃ msg, stepG ext none op = (fail msg, none)
   | .push x => ⟨_, rfl⟩
   | .extend x => ⟨_, rfl⟩
   | .build => ⟨_, rfl⟩
   | .viaSerializer x => by
     obtain ⟨e, he⟩ := serializeWithG_none ext x
-    exact ⟨e, by simp [stepG, he, Except.map]⟩
+    exact ⟨e, by simp [stepG, he, Except.map, fail]⟩
 
 /-- **after a failure every operation is refused.**  On a builder in which an operation has failed (`none`: the
 poisoned flag is set) every later operation of ANY history fails — no addition is accepted, no build returns arrays — and
-the builder stays refused. -/
+the builder stays refused; each of them fails with an ERROR (`fail msg`), none unwinds. -/
 theorem after_failure_refuses (ext : Ext) : ∀ (ops : List Op),
-    (runG ext none ops).2 = none ∧ ∀ o ∈ (runG ext none ops).1, ∃ e, o = .error e
+    (runG ext none ops).2 = none ∧ ∀ o ∈ (runG ext none ops).1, ∃ msg, o = fail msg
   | [] => ⟨rfl, by simp [runG]⟩
   | op :: ops => by
     obtain ⟨e, he⟩ := stepG_none ext op
@@ -195,7 +195,7 @@ theorem serializeWithG_reaches (ext : Ext) : ∀ (x : SVal) (b : B), reachesBuil
 
 /-- any other value: refused by the wrapper, the builder (poisoned or not) stays as it was -/
 theorem serializeWithG_refused (ext : Ext) : ∀ (x : SVal) (g : G), reachesBuilder x = false →
-    ∃ e, serializeWithG ext g x = (.error e, g)
+    ∃ msg, serializeWithG ext g x = (fail msg, g)
   | .newtypeStruct _ v, g, h => by
     simpa [serializeWithG] using serializeWithG_refused ext v g (by simpa [reachesBuilder] using h)
   | .newtypeVariant _ _ _ v, g, h => by
@@ -290,7 +290,7 @@ theorem step_inv (ext : Ext) (fields : List Field) (r0 : B) (h0 : newRoot fields
         | some r => rw [hs] at this; simp at this
       refine Or.inr ⟨root, by simp [stepG, he], ?_, Or.inr (by simp [Op.shapeRefused, hrb]), ?_⟩
       · simpa [pendingAfter, Op.rows, hnone] using hp
-      · intro arrs h; simp [stepG, he, Except.map] at h
+      · intro arrs h; simp [stepG, he, Except.map, fail] at h
   | build =>
     simp only [stepG, buildArraysG_some]
     cases h1 : buildArrays ext root with
@@ -335,7 +335,7 @@ theorem runG_folds (ext : Ext) (fields : List Field) (r0 : B) (h0 : newRoot fiel
       rw [h] at ho
       obtain ⟨_, hall⟩ := after_failure_refuses ext ops
       obtain ⟨e, he⟩ := hall _ (List.mem_of_getElem? ho)
-      cases he
+      simp [fail] at he
     · rw [h1] at ho
       obtain ⟨g1, g2⟩ := runG_folds ext fields r0 h0 ops root' _ h2 i arrs hop ho
       refine ⟨by simpa [List.take_succ_cons, trailing_cons] using g1, ?_⟩
@@ -398,22 +398,20 @@ theorem okRows_eq_trailing : ∀ (l : List (Op × Outcome)) (pending : List SVal
     | extend x => simp [Op.shapeRefused] at hs
     | build => simp [Op.shapeRefused] at hs
 
-/-- `build_ok_oneShot`, the rows named by the OUTCOMES: a successful build returns exactly the rows of the additions that
-succeeded since the previous successful build -/
-theorem build_ok_okRows (ext : Ext) (fields : List Field) (r0 : B) (h0 : newRoot fields = .ok r0)
+/-- before a build that succeeds, "the rows of the additions that succeeded since the previous successful build" (read off
+the outcomes) are the rows of the additions since the previous build -/
+theorem okRows_before_ok_build (ext : Ext) (fields : List Field) (r0 : B) (h0 : newRoot fields = .ok r0)
     (ops : List Op) (i : Nat) (arrs : List Arr) (hop : ops[i]? = some .build)
     (ho : (runG ext (some r0) ops).1[i]? = some (.ok (some arrs))) :
-    toMarrow ext fields (okRows [] ((ops.zip (runG ext (some r0) ops).1).take i)) = .ok arrs := by
-  obtain ⟨h1, h2⟩ := build_ok_oneShot ext fields r0 h0 ops i arrs hop ho
+    okRows [] ((ops.zip (runG ext (some r0) ops).1).take i) = trailing [] (ops.take i) := by
+  obtain ⟨_, h2⟩ := build_ok_oneShot ext fields r0 h0 ops i arrs hop ho
   have hlen := runG_length ext ops (some r0)
   have hi : i < ops.length := by
     rcases Nat.lt_or_ge i ops.length with h | h
     · exact h
     · rw [List.getElem?_eq_none h] at hop; cases hop
   rw [okRows_eq_trailing]
-  · have : ((ops.zip (runG ext (some r0) ops).1).take i).map (·.1) = ops.take i := by
-      rw [← List.map_take, List.map_fst_zip (by omega)]
-    rw [this]; exact h1
+  · rw [List.map_take, List.map_fst_zip (by omega)]
   · intro p hp
     obtain ⟨j, hj, hpj⟩ := List.getElem_of_mem hp
     simp only [List.length_take, List.length_zip] at hj
@@ -427,6 +425,15 @@ theorem build_ok_okRows (ext : Ext) (fields : List Field) (r0 : B) (h0 : newRoot
       rw [ha', hb']
     subst this
     exact hc
+
+/-- `build_ok_oneShot`, the rows named by the OUTCOMES: a successful build returns exactly the rows of the additions that
+succeeded since the previous successful build -/
+theorem build_ok_okRows (ext : Ext) (fields : List Field) (r0 : B) (h0 : newRoot fields = .ok r0)
+    (ops : List Op) (i : Nat) (arrs : List Arr) (hop : ops[i]? = some .build)
+    (ho : (runG ext (some r0) ops).1[i]? = some (.ok (some arrs))) :
+    toMarrow ext fields (okRows [] ((ops.zip (runG ext (some r0) ops).1).take i)) = .ok arrs := by
+  rw [okRows_before_ok_build ext fields r0 h0 ops i arrs hop ho]
+  exact (build_ok_oneShot ext fields r0 h0 ops i arrs hop ho).1
 
 /-- a build succeeds only if NO operation before it failed inside the builder: an earlier failed `push`, `extend`,
 `build`, or a `Serializer` call that failed in one of its records, makes every later build fail -/
@@ -516,30 +523,7 @@ theorem C10_histories_with_failures (ext : Ext) (fields : List Field) (r0 : B) (
     DecodesTo ext fields arrs (okRows [] ((ops.zip (runG ext (some r0) ops).1).take i)) ∧
     okRows [] ((ops.zip (runG ext (some r0) ops).1).take i) = trailing [] (ops.take i) := by
   have h1 := (build_ok_oneShot ext fields r0 h0 ops i arrs hop ho).1
-  have h2 := build_ok_okRows ext fields r0 h0 ops i arrs hop ho
-  have heq : okRows [] ((ops.zip (runG ext (some r0) ops).1).take i) = trailing [] (ops.take i) := by
-    -- both denote the rows `toMarrow` was applied to; proved through `okRows_eq_trailing` inside `build_ok_okRows`
-    obtain ⟨_, h3⟩ := build_ok_oneShot ext fields r0 h0 ops i arrs hop ho
-    have hlen := runG_length ext ops (some r0)
-    have hi : i < ops.length := by
-      rcases Nat.lt_or_ge i ops.length with h | h
-      · exact h
-      · rw [List.getElem?_eq_none h] at hop; cases hop
-    rw [okRows_eq_trailing]
-    · rw [← List.map_take, List.map_fst_zip (by omega)]
-    · intro p hp
-      obtain ⟨j, hj, hpj⟩ := List.getElem_of_mem hp
-      simp only [List.length_take, List.length_zip] at hj
-      obtain ⟨op, o, ha, hb, hc⟩ := h3 j (by omega)
-      have : p = (op, o) := by
-        rw [← hpj, List.getElem_take, List.getElem_zip]
-        have ha' : ops[j]'(by omega) = op := by
-          rw [List.getElem?_eq_getElem (by omega)] at ha; exact Option.some.inj ha
-        have hb' : (runG ext (some r0) ops).1[j]'(by omega) = o := by
-          rw [List.getElem?_eq_getElem (by omega)] at hb; exact Option.some.inj hb
-        rw [ha', hb']
-      subst this
-      exact hc
+  have heq := okRows_before_ok_build ext fields r0 h0 ops i arrs hop ho
   refine ⟨?_, heq⟩
   rw [heq]
   have hrows : ∀ x ∈ trailing [] (ops.take i), structStreamsAlternate x = true :=
@@ -583,13 +567,21 @@ theorem runG_of_run (ext : Ext) : ∀ (ops : List Op) (root : B) (outs : List (B
     obtain ⟨r, h1, h⟩ := (bind_ok _ _ _).1 h
     obtain ⟨g1, g2, g3⟩ := runG_of_run ext ops r outs fin h
     simp only [runG, stepG, pushG_some, h1, Except.map]
-    exact ⟨g1, by intro o ho; rcases List.mem_cons.1 ho with rfl | ho; exacts [rfl, g2 o ho], by simpa using g3⟩
+    refine ⟨g1, ?_, by simpa using g3⟩
+    intro o ho
+    rcases List.mem_cons.1 ho with rfl | ho
+    · rfl
+    · exact g2 o ho
   | .extend x :: ops, root, outs, fin, h => by
     simp only [run] at h
     obtain ⟨r, h1, h⟩ := (bind_ok _ _ _).1 h
     obtain ⟨g1, g2, g3⟩ := runG_of_run ext ops r outs fin h
     simp only [runG, stepG, extendG_some, h1, Except.map]
-    exact ⟨g1, by intro o ho; rcases List.mem_cons.1 ho with rfl | ho; exacts [rfl, g2 o ho], by simpa using g3⟩
+    refine ⟨g1, ?_, by simpa using g3⟩
+    intro o ho
+    rcases List.mem_cons.1 ho with rfl | ho
+    · rfl
+    · exact g2 o ho
   | .viaSerializer x :: ops, root, outs, fin, h => by
     simp only [run] at h
     obtain ⟨r, h1, h⟩ := (bind_ok _ _ _).1 h
@@ -597,15 +589,23 @@ theorem runG_of_run (ext : Ext) : ∀ (ops : List Op) (root : B) (outs : List (B
     obtain ⟨rows, hrows, _⟩ := serializeWith_spec ext x root r h1
     have hrb : reachesBuilder x = true := by rw [reachesBuilder_iff, hrows]; rfl
     simp only [runG, stepG, serializeWithG_reaches ext x root hrb, h1, Except.map]
-    exact ⟨g1, by intro o ho; rcases List.mem_cons.1 ho with rfl | ho; exacts [rfl, g2 o ho], by simpa using g3⟩
+    refine ⟨g1, ?_, by simpa using g3⟩
+    intro o ho
+    rcases List.mem_cons.1 ho with rfl | ho
+    · rfl
+    · exact g2 o ho
   | .build :: ops, root, outs, fin, h => by
     simp only [run] at h
     obtain ⟨⟨arrs, rest⟩, h1, h⟩ := (bind_ok _ _ _).1 h
     obtain ⟨⟨outs', fin'⟩, h2, h⟩ := (bind_ok _ _ _).1 h
     cases h
-    obtain ⟨g1, g2, g3⟩ := runG_of_run ext ops rest outs' fin h2
+    obtain ⟨g1, g2, g3⟩ := runG_of_run ext ops rest outs' _ h2
     simp only [runG, stepG, buildArraysG_some, h1, Except.map]
-    exact ⟨g1, by intro o ho; rcases List.mem_cons.1 ho with rfl | ho; exacts [rfl, g2 o ho], by simpa using g3⟩
+    refine ⟨g1, ?_, by simpa using g3⟩
+    intro o ho
+    rcases List.mem_cons.1 ho with rfl | ho
+    · rfl
+    · exact g2 o ho
 
 /-! ### non-vacuity: the history of Props/C10Arrays.lean with a record the builder refuses in the middle -/
 
